@@ -1,5 +1,6 @@
 import LoraVerif.Props.TieA.Basic
 import LoraVerif.Props.TieA.DynPlan
+import LoraVerif.Props.TieA.DynPlanMask
 import LoraVerif.Props.TieA.Rx1Offset
 import LoraVerif.Gen.MacStatic
 import LoraVerif.Lemmas.RtLemmas
@@ -79,13 +80,13 @@ example : macRxDelay (MacState.init (RegionState.init .EU868) 14 0) false true =
 below 16 ∧ channel enabled ∧ defined ∧ its frequency non-zero); the downlink frequency is stored only when
 both bits are set (`None` when it equals the uplink frequency: RX1 then follows the uplink), otherwise
 nothing changes.  Proved in `Props/TieA/DynPlan.lean`. -/
-theorem tieA_channel_dl_update (mops : Gen.DynPlanFn.MaskFns) (hm : TieA.Dyn.MaskOk mops) (rs : RegionState)
+theorem tieA_channel_dl_update (rs : RegionState)
     (p : Gen.DynPlanFn.DynamicChannelPlan) (hplan : rs.plan = .dyn (TieA.Dyn.planOf p)) (hw : TieA.Dyn.PlanWF p)
     (index freq : Int) (hi : 0 ≤ index) (hf : 0 ≤ freq) :
-    (Gen.DynPlanFn.DynamicChannelPlan.channel_dl_update (TieA.Dyn.regOf rs.id) mops p index freq).map
+    (Gen.DynPlanFn.DynamicChannelPlan.channel_dl_update (TieA.Dyn.regOf rs.id) TieA.DynMask.genMops p index freq).map
         (fun o => (o.1, { rs with plan := .dyn (TieA.Dyn.planOf o.2) }))
       = (channelDlUpdate rs index.toNat freq.toNat).toOption :=
-  TieA.Dyn.tieA_channel_dl_update mops hm rs p hplan hw index freq hi hf
+  TieA.Dyn.tieA_channel_dl_update TieA.DynMask.genMops TieA.DynMask.genMops_ok rs p hplan hw index freq hi hf
 
 
 example : TieA.Dyn.MaskOk TieA.Dyn.exMops := TieA.Dyn.exMops_ok
